@@ -69,10 +69,13 @@ func execute(c Case, tag string) vt.Verdict {
 		}
 	}
 	f := obs.Read(file, obs.Options{SelSeeds: []uint64{11, 22, 33, 44}})
-	ps := hist.Compare(ex.M, f, hist.Opts{})
+	ps := hist.Compare(ex.M, f, hist.Opts{RefCount: true})
 	for _, p := range ps {
 		if p.Kind == "attr-value-unsigned" {
 			continue // KF-C02-02 (C02's finding; attribute bytes and type are still compared)
+		}
+		if p.Kind == "dataset-refcount" && linkedFromDense(ex.M, p.Path) {
+			continue // KF-C05-refcount (C05's finding: links held by a dense group do not count)
 		}
 		if (p.Kind == "child-missing" || p.Kind == "dataset-missing" || p.Kind == "group-missing" || p.Kind == "link-invisible") && underDense(ex.M, p.Path) {
 			continue // KF-C03-02 (C03's finding: the reader never lists the members of a dense group)
@@ -97,6 +100,24 @@ func execute(c Case, tag string) vt.Verdict {
 		}
 	}
 	return vt.Pass()
+}
+
+// linkedFromDense: the object at path is the target of a link held by a group created with CreateDenseGroup.
+func linkedFromDense(m *hist.Model, path string) bool {
+	o := m.Resolve(path)
+	if o == nil {
+		return false
+	}
+	for _, g := range m.Objects() {
+		if g.Kind == "group" && g.Dense {
+			for _, dl := range g.Links {
+				if dl.Kind == "hard" && dl.Obj == o {
+					return true
+				}
+			}
+		}
+	}
+	return false
 }
 
 // underDense: p is (inside) a group created with CreateDenseGroup.
